@@ -7,9 +7,13 @@
 //!   startport none | single p | range a b  get_start_port_if_applicable -> none | some p
 //!   registry <missing|b> <utf8> <tp>       NodeRegistry::load(path): utf8 = 1|0|na (std::str::from_utf8 on the bytes),
 //!                                          tp = na | err | ok:<nodes> (serde_json::from_str::<NodeRegistry> called directly)
+//!   regsave <A> <B> <lenA> <lenB> <nB>     on ONE path: A.save(); B.save(); NodeRegistry::load(path). A, B = registry specs
+//!                                          `nodes,envvars,envvaluelen,nat` (nat 0 = none, 1 Public, 2 UPnP, 3 Private);
+//!                                          lenA/lenB = length of serde_json::to_string of each, nB = nodes of B (witnesses,
+//!                                          computed by the harness) -> len=<file length> ok <nodes> same|differs | len=.. err | panic
 use ant_node_manager::add_services::config::PortRange;
 use ant_node_manager::helpers::{get_start_port_if_applicable, increment_port_option};
-use ant_service_management::{NodeRegistry, NodeServiceData, ServiceStatus};
+use ant_service_management::{NatDetectionStatus, NodeRegistry, NodeServiceData, ServiceStatus};
 use common::{hex, unhex, Out, Rng};
 use std::panic::{catch_unwind, AssertUnwindSafe};
 
@@ -83,6 +87,24 @@ fn exec(line: &str, tmp: &std::path::Path) -> (String, String) {
                     Err(_) => "err".into(),
                 }
             }
+            ["regsave", a, b, ..] => {
+                let path = tmp.join("regsave").join("registry.json");
+                let _ = std::fs::remove_file(&path);
+                let (Some(ra), Some(rb)) = (registry_of(a, &path), registry_of(b, &path)) else { return "bad-op".into() };
+                let (ja, jb) = (serde_json::to_string(&ra).expect("json"), serde_json::to_string(&rb).expect("json"));
+                op = format!("regsave {a} {b} {} {} {}", ja.len(), jb.len(), rb.nodes.len());
+                if ra.save().is_err() || rb.save().is_err() {
+                    return "save-err".into();
+                }
+                let len = std::fs::metadata(&path).map(|m| m.len()).unwrap_or(0);
+                match NodeRegistry::load(&path) {
+                    Ok(r) => {
+                        let same = serde_json::to_string(&r).expect("json") == jb;
+                        format!("len={len} ok {} {}", r.nodes.len(), if same { "same" } else { "differs" })
+                    }
+                    Err(_) => format!("len={len} err"),
+                }
+            }
             _ => "bad-op".into(),
         }
     }));
@@ -108,6 +130,12 @@ fn oracle(line: &str, res: &str, out: &mut Out) {
         ["validate", "single", _, c] => {
             if (res == "ok") != (*c == "1") {
                 out.oracle_fail("validate-exact", line, &format!("single port, count {c}: got {res}"));
+            }
+        }
+        ["regsave", ..] => {
+            // where a formatter exists, parsing its output returns the original value — also over an existing file
+            if !(res.contains(" ok ") && res.ends_with(" same")) {
+                out.oracle_fail("roundtrip", line, &format!("save(A); save(B); load did not return B: {res}"));
             }
         }
         ["incr", p] if *p != "none" => {
@@ -171,6 +199,24 @@ fn sample_node(i: u16) -> NodeServiceData {
     }
 }
 
+/// registry from a spec `nodes,envvars,envvaluelen,nat`
+fn registry_of(spec: &str, path: &std::path::Path) -> Option<NodeRegistry> {
+    let f: Vec<usize> = spec.split(',').map(|x| x.parse().ok()).collect::<Option<Vec<_>>>()?;
+    let [nodes, envs, envlen, nat] = f.as_slice() else { return None };
+    if *nodes > 50 || *envs > 50 || *envlen > 10_000 {
+        return None;
+    }
+    Some(NodeRegistry {
+        auditor: None,
+        daemon: None,
+        environment_variables: if *envs == 0 && *envlen == 0 { None } else { Some((0..*envs).map(|i| (format!("VAR{i}"), "v".repeat(*envlen))).collect()) },
+        faucet: None,
+        nat_status: match nat { 0 => None, 1 => Some(NatDetectionStatus::Public), 2 => Some(NatDetectionStatus::UPnP), _ => Some(NatDetectionStatus::Private) },
+        nodes: (1..=*nodes as u16).map(sample_node).collect(),
+        save_path: path.to_path_buf(),
+    })
+}
+
 fn registry_json(nodes: u16) -> String {
     let r = NodeRegistry {
         auditor: None,
@@ -205,10 +251,20 @@ fn numeric_edge(rng: &mut Rng, good: &str) -> String {
     good.replace(field, v)
 }
 
+/// Install a TRACE-level subscriber that really formats every event (into a sink), so that the
+/// `Display`/`Debug` impls reached from the parsers' log statements are executed under `catch_unwind`.
+fn install_formatting_subscriber() {
+    let _ = tracing_subscriber::fmt()
+        .with_max_level(tracing::Level::TRACE)
+        .with_writer(std::io::sink)
+        .try_init();
+}
+
 fn main() {
     let args = &common::parse_args();
     let mut out = Out::new(&args.out);
     std::panic::set_hook(Box::new(|_| {}));
+    install_formatting_subscriber();
     let tmp = tempfile::tempdir().expect("tempdir");
     let lines: Vec<String> = if let Some(p) = &args.replay {
         common::read_lines(p)
@@ -226,6 +282,11 @@ fn main() {
         v.push("incr none".into());
         v.push("registry missing x x".into());
         v.push("registry - x x".into());
+        // save(long) ; save(short) ; load — and equal / longer / empty variants
+        for (a, b) in [("2,2,40,1", "0,0,0,0"), ("3,0,0,0", "1,0,0,0"), ("1,1,100,2", "1,1,10,2"), ("1,1,10,2", "1,1,9,2"), ("1,0,0,1", "1,0,0,2"),
+                       ("1,0,0,0", "1,0,0,0"), ("0,0,0,0", "2,1,5,3"), ("0,0,0,0", "0,0,0,0"), ("0,1,1,0", "0,1,0,0"), ("0,0,0,3", "0,0,0,0")] {
+            v.push(format!("regsave {a} {b}"));
+        }
         {
             let good = registry_json(1);
             for (a, b) in [("\"number\":1", "\"number\":65535"), ("\"number\":1", "\"number\":65536"), ("\"pid\":null", "\"pid\":4294967295"),
@@ -238,7 +299,13 @@ fn main() {
             v.push(format!("portparse {}", hx(s)));
         }
         for _ in 0..args.n {
-            match rng.below(12) {
+            match rng.below(14) {
+                12 | 13 => {
+                    let mut spec = |rng: &mut Rng| format!("{},{},{},{}", rng.below(4), rng.below(3), *rng.pick(&[0u64, 1, 2, 10, 11, 100]), rng.below(4));
+                    let a = spec(&mut rng);
+                    let b = if rng.chance(1, 5) { a.clone() } else { spec(&mut rng) };
+                    v.push(format!("regsave {a} {b}"));
+                }
                 0 | 1 => {
                     let (a, b) = (port(&mut rng), port(&mut rng));
                     let s = match rng.below(6) {
